@@ -60,7 +60,7 @@ func (s *Storage) Create(rls *rspb.Release) error {
 	slog.Debug("creating release", "key", makeKey(rls.Name, rls.Version))
 	if s.MaxHistory > 0 {
 		// Want to make space for one more release.
-		if err := s.removeLeastRecent(rls.Name, s.MaxHistory-1); err != nil &&
+		if err := s.removeLeastRecent(rls.Name, s.MaxHistory-1, rls.Version); err != nil &&
 			!errors.Is(err, driver.ErrReleaseNotFound) {
 			return err
 		}
@@ -160,7 +160,11 @@ func (s *Storage) History(name string) ([]*rspb.Release, error) {
 //
 // We allow max to be set explicitly so that calling functions can "make space"
 // for the new records they are going to write.
-func (s *Storage) removeLeastRecent(name string, maximum int) error {
+//
+// Only revisions older than below are removed: room is never made by removing
+// the revision that is about to be created (another operation may just have
+// stored it) or a newer one.
+func (s *Storage) removeLeastRecent(name string, maximum, below int) error {
 	if maximum < 0 {
 		return nil
 	}
@@ -185,6 +189,9 @@ func (s *Storage) removeLeastRecent(name string, maximum int) error {
 		// once we have enough releases to delete to reach the maximum, stop
 		if len(h)-len(toDelete) == maximum {
 			break
+		}
+		if rel.Version >= below {
+			continue
 		}
 		if lastDeployed != nil {
 			if rel.Version != lastDeployed.Version {
